@@ -223,7 +223,7 @@ def sign(case, ctx):
 
 # ---------------------------------------------------------------------------
 cand_case = st.fixed_dictionaries({
-    "cls": st.sampled_from(["rawpool", "chosen", "chosen", "infinity", "flip-msg", "flip-id", "flip-pub", "flip-sig", "dermut", "wrongkey", "wrongid"]),
+    "cls": st.sampled_from(["rawpool", "chosen", "chosen", "infinity", "t-zero", "flip-msg", "flip-id", "flip-pub", "flip-sig", "dermut", "wrongkey", "wrongid"]),
     "d": gen.scalar_d(), "id": id_spec, "mlen": st.integers(0, 80), "seed": st.integers(0, 1 << 32),
     "r": gen.z256(), "s": gen.z256(), "k": gen.z256(M.N), "bit": st.integers(0, 1 << 20), "e_hi": st.booleans(),
     "cuts": st.lists(st.integers(0, 80), max_size=2)})
@@ -252,7 +252,19 @@ def verify(case, ctx):
     ident = _mk_id(case["id"])
     msg = _msg(case["mlen"], case["seed"])
     n = M.N
-    ctx.case(nontrivial=True, classes=[cls], ident=case, sample=case if cls in ("chosen", "infinity", "dermut") else None)
+    ctx.case(nontrivial=True, classes=[cls], ident=case, sample=case if cls in ("chosen", "infinity", "dermut", "t-zero") else None)
+    if cls == "t-zero":
+        # r + s = n: t = 0, so [s]G + [t]P does not depend on the key.  With e = r - x([s]G) the remaining equation holds under EVERY
+        # public key: a verifier that misses the t = 0 rejection accepts a keyless forgery
+        s_ = u(case["s"]) % (n - 1) + 1
+        r = n - s_
+        e = (r - M.mul(s_, M.G)[0]) % n
+        exp = M.verify_rs(pub, e, r, s_)
+        assert exp is False, "harness: r + s = n must be rejected by the model"
+        got = _lib_verdicts(l, ctx, pub, M.i2b(e), D.enc_sig(r, s_), (r, s_), cls, None)
+        for iface, v in got.items():
+            ctx.check(v == exp, "%s accepts the keyless forgery r + s = n (r=%x s=%x e=%x) under the public key %s" % (iface, r, s_, e, pub), "verify/t-zero/%s" % iface)
+        return
     if cls in ("rawpool", "chosen", "infinity"):
         r, s, k = u(case["r"]), u(case["s"]), u(case["k"])
         if cls == "rawpool":
